@@ -120,14 +120,25 @@ Definition declared (o : oper) (l : loc) : list str :=
 Definition entry (c : cfg) (o : oper) (l : loc) : dict := for_parameters (ov_of c l) (declared o l).
 
 (* unit/__init__.py:222 get_strategy_kwargs: None = key absent from kwargs.
-   The headers key is OVERWRITTEN by the network headers when those are non-empty. *)
+   Code as it is now (repo commit 9a3b607c): with network headers the headers kwarg is the
+   network headers minus user-agent, UPDATED with the header overrides of the operation. *)
 Definition not_user_agent (kv : str * str) : bool := negb (str_eqb (lower_ascii (fst kv)) user_agent_lower).
+Definition from_override (c : cfg) (o : oper) (l : loc) : option dict :=
+  if has_override c then (if is_empty (entry c o l) then None else Some (entry c o l)) else None.
 Definition strategy_kwarg (c : cfg) (o : oper) (l : loc) : option dict :=
-  let from_override :=
-    if has_override c then (if is_empty (entry c o l) then None else Some (entry c o l)) else None in
   match l with
-  | LHeaders => if is_empty (net c) then from_override else Some (filter not_user_agent (net c))
-  | _ => from_override
+  | LHeaders =>
+      if is_empty (net c) then from_override c o l
+      else Some (assoc_update (filter not_user_agent (net c))
+                              (match from_override c o l with Some e => e | None => [] end))
+  | _ => from_override c o l
+  end.
+(* REGRESSION MODEL, not the code: get_strategy_kwargs before commit 9a3b607c, where the
+   headers key was OVERWRITTEN by the network headers (finding C14-F1, fixed) *)
+Definition get_strategy_kwargs_prefix (c : cfg) (o : oper) (l : loc) : option dict :=
+  match l with
+  | LHeaders => if is_empty (net c) then from_override c o l else Some (filter not_user_agent (net c))
+  | _ => from_override c o l
   end.
 
 (* _hypothesis.py:213 get_parameters_value: gen is what draw(strategy) returned (None when
@@ -221,20 +232,26 @@ Definition final_container (ph : phase) (c : cfg) (o : oper) (l : loc) (ex gen :
   | Stateful => sf_apply c (entry c o l) (pre_send_loc c l gen)     (* the step is hashed before before_call *)
   end.
 
-(* headers of the case handed to the transport *)
-Definition case_headers (ph : phase) (c : cfg) (o : oper) (ex gen : option dict) : hdrs :=
+(* headers of the case handed to the transport; kw = the headers kwarg of get_strategy_kwargs *)
+Definition case_headers_with (kw : option dict) (ph : phase) (c : cfg) (o : oper) (ex gen : option dict) : hdrs :=
   match ph with
-  | Fuzzing => to_case_headers (gen_value (strategy_kwarg c o LHeaders) gen)
-  | Examples => to_case_headers (gen_value (example_explicit (strategy_kwarg c o LHeaders) ex) gen)
-  | Coverage => cov_apply_h (to_case_headers gen) (strategy_kwarg c o LHeaders)
+  | Fuzzing => to_case_headers (gen_value kw gen)
+  | Examples => to_case_headers (gen_value (example_explicit kw ex) gen)
+  | Coverage => cov_apply_h (to_case_headers gen) kw
   | Stateful => sf_apply_h c (entry c o LHeaders) (to_case_headers gen)
   end.
+Definition case_headers (ph : phase) (c : cfg) (o : oper) (ex gen : option dict) : hdrs :=
+  case_headers_with (strategy_kwarg c o LHeaders) ph c o ex gen.
 
 Definition final_headers (ph : phase) (c : cfg) (o : oper) (ex gen : option dict) (ua cid : str) : hdrs :=
   prepare_headers (case_headers ph c o ex gen) (net c) ua cid.
 
 Definition wire (ph : phase) (c : cfg) (o : oper) (ex gen : option dict) (ua cid : str) (defaults : dict) : dict :=
   wire_headers defaults (net c) (final_headers ph c o ex gen ua cid) (auth c).
+(* the same pipeline over the regression model of get_strategy_kwargs *)
+Definition wire_prefix (ph : phase) (c : cfg) (o : oper) (ex gen : option dict) (ua cid : str) (defaults : dict) : dict :=
+  wire_headers defaults (net c)
+    (prepare_headers (case_headers_with (get_strategy_kwargs_prefix c o LHeaders) ph c o ex gen) (net c) ua cid) (auth c).
 
 (* ---- region predicates ---- *)
 Definition keys_disjoint (a b : dict) : bool := forallb (fun kv => negb (assoc_mem (fst kv) b)) a.
@@ -244,8 +261,6 @@ Definition excl_ok (explicit gen : option dict) : bool :=
 (* F2: unique_inputs + sanitization rewrite sensitive-named query / cookie values in place *)
 Definition outside_F2 (c : cfg) (l : loc) (n : str) : bool :=
   negb (sanitized_loc l && unique_inputs c && sanitize c && sensitive n).
-(* F1: the header override is dropped from the unit phases when --header is also configured *)
-Definition outside_F1 (c : cfg) : bool := is_empty (net c).
 (* F3: on a plain-dict Case.headers the defaults are added case-sensitively *)
 Definition outside_F3 (n : str) : bool :=
   negb (leq n USER_AGENT_NAME) && negb (leq n TESTCASE_NAME).
@@ -257,6 +272,9 @@ Definition lower_nodup (d : dict) : bool :=
      end) d.
 Definition no_ci_key (n : str) (d : option dict) : bool :=
   match d with Some g => match ci_get n g with None => true | Some _ => false end | None => true end.
+(* F4: the same header name (modulo case) configured by --header and by --set-header: the
+   transport merge is the last writer, so the --header value is what is sent *)
+Definition outside_F4 (c : cfg) (n : str) : bool := no_ci_key n (Some (net c)).
 
 (* the value the user configured for header n, read case-insensitively; None when absent or
    when two spellings of the name carry different values *)
